@@ -795,6 +795,164 @@ pub mod keyed {
     }
 }
 
+/// A recording hook that is RE-ENTRANT: from inside every delete/insert callback it runs a small
+/// nested diff with the same algorithm (what a hook does that refines a changed block by diffing it
+/// again).  The outer stream must not be disturbed by the nested calls.
+pub struct NestingRecorder {
+    pub rec: Recorder,
+    pub alg: Algorithm,
+    pub nested_runs: usize,
+}
+
+impl NestingRecorder {
+    pub fn new(alg: Algorithm) -> Self {
+        NestingRecorder { rec: Recorder::new(), alg, nested_runs: 0 }
+    }
+    fn nested(&mut self, a: usize, b: usize) {
+        // two short sequences derived from the callback arguments
+        let x: Vec<u32> = (0..5 + a % 4).map(|i| ((i * 7 + a) % 4) as u32).collect();
+        let y: Vec<u32> = (0..4 + b % 5).map(|i| ((i * 5 + b) % 4) as u32).collect();
+        let mut inner = Recorder::new();
+        let _ = similar::algorithms::diff_slices(self.alg, &mut inner, &x, &y);
+        let _ = similar::capture_diff_slices(self.alg, &y, &x);
+        self.nested_runs += 1;
+    }
+}
+
+impl DiffHook for NestingRecorder {
+    type Error = usize;
+    fn equal(&mut self, o: usize, n: usize, len: usize) -> Result<(), usize> {
+        self.rec.equal(o, n, len)
+    }
+    fn delete(&mut self, o: usize, len: usize, n: usize) -> Result<(), usize> {
+        self.nested(o, len);
+        self.rec.delete(o, len, n)
+    }
+    fn insert(&mut self, o: usize, n: usize, len: usize) -> Result<(), usize> {
+        self.nested(n, len);
+        self.rec.insert(o, n, len)
+    }
+    fn finish(&mut self) -> Result<(), usize> {
+        self.rec.finish()
+    }
+}
+
+/// A lookup type that lives at the SAME ADDRESS as the Vec it wraps (repr(transparent)) but indexes
+/// it back to front: `&view.0` and `&view` are two different sequences sharing address and size.
+#[repr(transparent)]
+pub struct Reversed(pub Vec<u32>);
+
+impl Index<usize> for Reversed {
+    type Output = u32;
+    fn index(&self, i: usize) -> &u32 {
+        &self.0[self.0.len() - 1 - i]
+    }
+}
+
+/// Leaves whatever per-thread state a diff can leave behind when it is aborted: a diff through
+/// Compact + Replace whose innermost hook fails at call `fail_at`, and one whose item comparison
+/// panics half way (caught).  Used before a judged call; a later diff on the same thread must not
+/// be affected.
+pub fn poison_thread(alg: Algorithm, old: &[u32], new: &[u32], fail_at: usize) {
+    let mut h = similar::algorithms::Compact::new(similar::algorithms::Replace::new(Recorder::failing(fail_at)), old, new);
+    let _ = similar::algorithms::diff_slices(alg, &mut h, old, new);
+}
+
+/// A caller-defined unsized `DiffableStr`: ASCII-case-insensitive text (`Eq`, `Ord`, `Hash` fold the
+/// case; the bytes differ).  A transparent wrapper around `str`.
+pub mod cistr {
+    use similar::DiffableStr;
+    use std::borrow::Cow;
+    use std::hash::{Hash, Hasher};
+
+    #[repr(transparent)]
+    #[derive(Debug)]
+    pub struct CiStr(str);
+
+    impl CiStr {
+        pub fn new(s: &str) -> &CiStr {
+            // SAFETY: CiStr is a repr(transparent) wrapper around str
+            unsafe { &*(s as *const str as *const CiStr) }
+        }
+        pub fn as_plain(&self) -> &str {
+            &self.0
+        }
+        fn wrap(v: Vec<&str>) -> Vec<&CiStr> {
+            v.into_iter().map(CiStr::new).collect()
+        }
+    }
+    impl PartialEq for CiStr {
+        fn eq(&self, o: &CiStr) -> bool {
+            self.0.eq_ignore_ascii_case(&o.0)
+        }
+    }
+    impl Eq for CiStr {}
+    impl Hash for CiStr {
+        fn hash<H: Hasher>(&self, h: &mut H) {
+            for b in self.0.bytes() {
+                h.write_u8(b.to_ascii_lowercase());
+            }
+            h.write_u8(0xff);
+        }
+    }
+    impl PartialOrd for CiStr {
+        fn partial_cmp(&self, o: &CiStr) -> Option<std::cmp::Ordering> {
+            Some(self.cmp(o))
+        }
+    }
+    impl Ord for CiStr {
+        fn cmp(&self, o: &CiStr) -> std::cmp::Ordering {
+            self.0.bytes().map(|b| b.to_ascii_lowercase()).cmp(o.0.bytes().map(|b| b.to_ascii_lowercase()))
+        }
+    }
+    impl ToOwned for CiStr {
+        type Owned = Box<CiStr>;
+        fn to_owned(&self) -> Box<CiStr> {
+            let b: Box<str> = self.0.into();
+            // SAFETY: same layout
+            unsafe { Box::from_raw(Box::into_raw(b) as *mut CiStr) }
+        }
+    }
+    impl DiffableStr for CiStr {
+        fn tokenize_lines(&self) -> Vec<&Self> {
+            CiStr::wrap(self.0.tokenize_lines())
+        }
+        fn tokenize_lines_and_newlines(&self) -> Vec<&Self> {
+            CiStr::wrap(self.0.tokenize_lines_and_newlines())
+        }
+        fn tokenize_words(&self) -> Vec<&Self> {
+            CiStr::wrap(self.0.tokenize_words())
+        }
+        fn tokenize_chars(&self) -> Vec<&Self> {
+            CiStr::wrap(self.0.tokenize_chars())
+        }
+        fn tokenize_unicode_words(&self) -> Vec<&Self> {
+            CiStr::wrap(self.0.tokenize_unicode_words())
+        }
+        fn tokenize_graphemes(&self) -> Vec<&Self> {
+            CiStr::wrap(self.0.tokenize_graphemes())
+        }
+        fn as_str(&self) -> Option<&str> {
+            Some(&self.0)
+        }
+        fn to_string_lossy(&self) -> Cow<'_, str> {
+            Cow::Borrowed(&self.0)
+        }
+        fn ends_with_newline(&self) -> bool {
+            self.0.ends_with(&['\r', '\n'][..])
+        }
+        fn len(&self) -> usize {
+            self.0.len()
+        }
+        fn slice(&self, rng: std::ops::Range<usize>) -> &Self {
+            CiStr::new(&self.0[rng])
+        }
+        fn as_bytes(&self) -> &[u8] {
+            self.0.as_bytes()
+        }
+    }
+}
+
 /// deterministic pseudo-random sequence for the fixed "large" cases (a constant of the harness,
 /// not a source of randomness of a run)
 pub fn lcg_seq(seed: u64, n: usize, k: u32) -> Vec<u32> {
